@@ -173,7 +173,17 @@ func cmdCheck(args []string) int {
 			data["solver"] = o.Result.Solver
 			data["solver_status"] = o.Result.Status
 			data["solver_detail"] = o.Result.Detail
-			if o.Result.Status == "sat" {
+			if o.Result.Status != "sat" && o.Result.Status != "unsat" && !o.Cover && o.tr != nil {
+				// no model from the full query: look for a candidate counterexample without the quantified axioms
+				rq := o.tr.queryText2(o, true, true)
+				rr := run.pool.solve(rq, 20, nil)
+				if rr.Status == "sat" {
+					data["candidate_from_relaxed_query"] = true
+					o.Result.Model = rr.Model
+					o.relaxed = true
+				}
+			}
+			if o.Result.Model != "" {
 				m := o.Result.Model
 				if len(m) > 6000 {
 					m = m[:6000] + "\n... (truncated)"
